@@ -848,6 +848,7 @@ def _ancestor_failed_earlier(spec, payloads, pe):
     label_of = {}
     failed_at = {}  # label -> payload index of its completed-with-errors entry
     bogus_at = None
+    rank = 0  # the entry is the rank-th never-announced completed entry naming these tasks
     for k, p in enumerate(payloads):
         for q in p.get("pending") or ():
             label_of[q["id"]] = q.get("label")
@@ -856,19 +857,27 @@ def _ancestor_failed_earlier(spec, payloads, pe):
                 bogus_at = k
             elif c.get("errors") and c["id"] in label_of:
                 failed_at.setdefault(label_of[c["id"]], k)
+            elif (bogus_at is None and c["id"] not in label_of and c.get("errors")
+                  and any(m.get("message", "") in msgs for m in c["errors"])):
+                rank += 1  # an earlier bogus entry for the same failure
     if bogus_at is None:
         return "?"
     announced = set(label_of.values())
+    live = dead = 0
     for t in spec.all_tasks:
         if t.tid not in tids:
             continue
         for g in t.groups:
             if g.label in announced:
                 continue
-            for a in g.ancestors():
-                if a.label in failed_at and failed_at[a.label] < bogus_at:
-                    return True
-    return False
+            if any(a.label in failed_at and failed_at[a.label] < bogus_at for a in g.ancestors()):
+                dead += 1
+            else:
+                live += 1
+    # Every bogus entry that can be attributed to an unannounced group whose ancestors were all
+    # still alive is the listed finding; only entries beyond those must belong to a group whose
+    # subtree should have been gone (a task may sit in groups of both kinds).
+    return dead > 0 and rank >= live
 
 
 def _task_keys(data):
